@@ -88,6 +88,76 @@ func genFileSet(r *rand.Rand, idx int) *fileSet {
 	add("write", u.SeedBatch(r, nil))
 	add("flush", nil)
 	rounds := 9 + r.IntN(4)
+	if idx%4 >= 2 {
+		// independent clocks: every (measurement, series) advances on its own time line whose
+		// base differs from series to series (not in series order), and every file holds a
+		// random subset of the series — so files start with different series, one series has
+		// chunks in several ordered files, and the order of the files by their first chunk's
+		// time differs from their order by another series' time. Late rows fall inside and
+		// below a series' already flushed range.
+		type sk struct {
+			m  string
+			se map[string]string
+		}
+		var keys []sk
+		for _, m := range u.Msts {
+			for _, se := range u.Series {
+				keys = append(keys, sk{m, se})
+			}
+		}
+		perm := r.Perm(len(keys))
+		clock := make([]int64, len(keys))
+		base := make([]int64, len(keys))
+		for i := range keys {
+			base[i] = kit.BaseTime + int64(1+perm[i])*1000*1_000_000_000
+			clock[i] = base[i]
+		}
+		for i := 0; i < rounds; i++ {
+			var pts []model.Point
+			for ki, k := range keys {
+				if r.IntN(2) == 0 {
+					continue
+				}
+				for n := 1 + r.IntN(3); n > 0; n-- {
+					clock[ki] += int64(1+r.IntN(3)) * 1_000_000_000
+					p := model.Point{Mst: k.m, Tags: k.se, T: clock[ki], Fields: map[string]model.Value{}}
+					for _, f := range u.Fields {
+						if r.IntN(3) != 0 {
+							p.Fields[f.Name] = kit.Value(r, f.Kind)
+						}
+					}
+					if len(p.Fields) == 0 {
+						p.Fields["fi"] = kit.Value(r, 'i')
+					}
+					pts = append(pts, p)
+				}
+			}
+			add("write", pts)
+			if r.IntN(3) != 0 {
+				var late []model.Point
+				for n := 1 + r.IntN(5); n > 0; n-- {
+					ki := r.IntN(len(keys))
+					if clock[ki] == base[ki] {
+						continue
+					}
+					// inside the flushed range (between two ordered rows) or below it
+					t := base[ki] + r.Int64N(clock[ki]-base[ki]+1) - int64(r.IntN(2))*500_000_000
+					if r.IntN(4) == 0 {
+						t = base[ki] - int64(1+r.IntN(50))*1_000_000_000
+					}
+					late = append(late, model.Point{Mst: keys[ki].m, Tags: keys[ki].se, T: t,
+						Fields: map[string]model.Value{"fi": kit.Value(r, 'i'), "fs": kit.Value(r, 's')}})
+				}
+				add("write", late)
+			}
+			add("flush", nil)
+		}
+		if r.IntN(2) == 0 {
+			add("write", u.GenBatch(r, kit.BatchOpts{MaxPoints: 4, FullRowProb: 0.5}))
+		}
+		fs.finish()
+		return fs
+	}
 	for i := 0; i < rounds; i++ {
 		// ordered part: a fresh later timestamp, some series and fields missing (sparse
 		// columns, schema differences between files)
